@@ -550,3 +550,21 @@ func (w *World) uniq(ss ...neotest.Signer) []neotest.Signer {
 	}
 	return out
 }
+
+// eventNames: "contract.Event" for every notification of the last transaction, in order.
+func (w *World) eventNames() []string {
+	var out []string
+	if w.lastAer == nil {
+		return nil
+	}
+	for _, ev := range w.lastAer.Events {
+		c := "native"
+		for n, h := range w.hashes {
+			if h == ev.ScriptHash {
+				c = n
+			}
+		}
+		out = append(out, c+"."+ev.Name)
+	}
+	return out
+}
